@@ -9,3 +9,4 @@ import MiniconfVerif.Props.C05
 #print axioms MiniconfVerif.C05.write_back_identity
 #print axioms MiniconfVerif.C05.read_back
 #print axioms MiniconfVerif.C05.small_buffer_no_partial
+#print axioms MiniconfVerif.C05.source_helpers_are_model
